@@ -41,7 +41,7 @@ class Violation(Exception):
 
 class Shard:
     def __init__(self, name, check, strategy=None, cases=None, n=200, nontrivial=None,
-                 classify=None, thorough_mult=20, exhaustive=False):
+                 classify=None, thorough_mult=20, exhaustive=False, fuzz=None):
         self.name = name
         self.check = check
         self.strategy = strategy
@@ -51,6 +51,7 @@ class Shard:
         self.classify = classify  # case -> iterable of labels
         self.thorough_mult = thorough_mult
         self.exhaustive = exhaustive
+        self.fuzz = fuzz  # valid cases of the coverage-guided campaign in the thorough tier (None: default, 0: none)
 
 
 def case_hash(case):
@@ -89,21 +90,20 @@ class _Watch:
         signal.alarm(0)
 
 
-def _run_shard(shard, shard_seed, tier, outfile, hangfile, excluded):
-    """Executed in a forked child.  Writes a json result to ``outfile``."""
-    t0 = time.time()
-    sys.unraisablehook = lambda arg: None  # leftovers of leaked doubles are not library output
-    import warnings
+class CaseRunner:
+    """Runs single cases of one shard, keeping the statistics the evidence needs."""
 
-    warnings.filterwarnings("ignore", message="coroutine .* was never awaited")
-    watch = _Watch(hangfile)
-    stats = {"evaluations": 0, "nontrivial": set(), "samples": [], "labels": Counter(),
-             "excluded": 0}
-    failures = []
-    result = {"shard": shard.name, "status": "ok"}
+    def __init__(self, shard, hangfile, excluded):
+        self.shard = shard
+        self.excluded = excluded
+        self.watch = _Watch(hangfile)
+        self.stats = {"evaluations": 0, "nontrivial": set(), "samples": [], "labels": Counter(), "excluded": 0}
+        self.failures = []
+        self.t0 = time.time()
 
-    def one(case):
-        if excluded and any(pred(case) for pred in excluded):
+    def one(self, case):
+        shard, stats, watch = self.shard, self.stats, self.watch
+        if self.excluded and any(pred(case) for pred in self.excluded):
             stats["excluded"] += 1
             return
         watch.arm(case)
@@ -123,7 +123,7 @@ def _run_shard(shard, shard_seed, tier, outfile, hangfile, excluded):
                 ret = shard.check(case)
             except Violation as v:
                 stats["evaluations"] += 1
-                failures.append((v.case if v.case is not None else case, v.bucket, v.detail))
+                self.failures.append((v.case if v.case is not None else case, v.bucket, v.detail))
                 raise
             # a check may expand one generated case into many runs (fault / cancel positions)
             if isinstance(ret, dict):
@@ -143,6 +143,38 @@ def _run_shard(shard, shard_seed, tier, outfile, hangfile, excluded):
         finally:
             watch.disarm()
 
+    def finish(self, result, outfile):
+        stats, shard = self.stats, self.shard
+        result.update(
+            evaluations=stats["evaluations"],
+            nontrivial=sorted(stats["nontrivial"]),
+            samples=stats["samples"],
+            labels=dict(stats["labels"]),
+            excluded=stats["excluded"],
+            wall_s=round(time.time() - self.t0, 2),
+            exhaustive=bool(shard.exhaustive and shard.cases is not None),
+        )
+        with open(outfile, "w") as fh:
+            json.dump(result, fh, default=str)
+
+
+def quiet_worker():
+    sys.unraisablehook = lambda arg: None  # leftovers of leaked doubles are not library output
+    import warnings
+
+    warnings.filterwarnings("ignore", message="coroutine .* was never awaited")
+
+
+def _run_shard(shard, shard_seed, tier, outfile, hangfile, excluded):
+    """Executed in a forked child.  Writes a json result to ``outfile``."""
+    quiet_worker()
+    if getattr(shard, "engine", "hypothesis") == "atheris":
+        # coverage-guided campaign: needs a fresh interpreter (the library must be imported instrumented)
+        os.execv(sys.executable, [sys.executable, "-m", "vf.fuzz", shard.module, shard.base_name, str(shard_seed),
+                                  str(shard.fuzz_runs), outfile, hangfile, json.dumps(shard.excluded_ids)])
+    runner = CaseRunner(shard, hangfile, excluded)
+    one, failures = runner.one, runner.failures
+    result = {"shard": shard.name, "status": "ok"}
     try:
         if shard.cases is not None:
             seen_buckets = {}
@@ -187,19 +219,7 @@ def _run_shard(shard, shard_seed, tier, outfile, hangfile, excluded):
     except BaseException:  # noqa: B902
         result["status"] = "error"
         result["error"] = traceback.format_exc()[-4000:]
-    result.update(
-        evaluations=stats["evaluations"],
-        nontrivial=sorted(stats["nontrivial"]),
-        samples=stats["samples"],
-        labels=dict(stats["labels"]),
-        excluded=stats["excluded"],
-        wall_s=round(time.time() - t0, 2),
-        exhaustive=bool(shard.exhaustive and shard.cases is not None),
-    )
-    if not result["samples"] and stats["evaluations"]:
-        pass
-    with open(outfile, "w") as fh:
-        json.dump(result, fh, default=str)
+    runner.finish(result, outfile)
     os._exit(0)
 
 
@@ -228,10 +248,49 @@ def _isolated_rerun(module_name, shard_name, hangcase_path):
         return False
 
 
+FUZZ_RUNS = int(os.environ.get("VERIF_FUZZ_RUNS", "2500"))
+
+
+def atheris_available():
+    deps = os.path.join(env.VERIF_DIR, ".deps")
+    if os.path.isdir(deps) and deps not in sys.path:
+        sys.path.append(deps)
+    try:
+        import importlib.util
+
+        return importlib.util.find_spec("atheris") is not None
+    except Exception:
+        return False
+
+
+def coverage_guided(mod, shards):
+    """one coverage-guided campaign (vf/fuzz.py) per Hypothesis-driven shard of the thorough tier"""
+    import copy
+
+    out = []
+    for s in shards:
+        runs = FUZZ_RUNS if s.fuzz is None else s.fuzz
+        if s.strategy is None or not runs:
+            continue
+        cg = copy.copy(s)
+        cg.name, cg.base_name, cg.engine = "cg:" + s.name, s.name, "atheris"
+        cg.module = mod.__name__.rsplit(".", 1)[-1]
+        cg.fuzz_runs = runs
+        cg.excluded_ids = []
+        out.append(cg)
+    return out
+
+
 def run_property(mod, tier, seed, jobs=16, only=None):
     t0 = time.time()
     prop = mod.PROPERTY
     shards = mod.shards(tier)
+    fuzz_note = None
+    if tier == "thorough" and FUZZ_RUNS:
+        if atheris_available():
+            shards = shards + coverage_guided(mod, shards)
+        else:
+            fuzz_note = "atheris not importable: coverage-guided campaigns skipped"
     if only:
         shards = [s for s in shards if any(o in s.name for o in only)]
     work = os.path.join(env.VERIF_DIR, ".work", f"{prop}-{os.getpid()}")
@@ -252,6 +311,8 @@ def run_property(mod, tier, seed, jobs=16, only=None):
         out = os.path.join(work, f"{idx}-{len(excluded_ids)}.json")
         hang = os.path.join(work, f"{idx}-{len(excluded_ids)}.hang.json")
         preds = [exclusions[e] for e in excluded_ids if e in exclusions]
+        if getattr(shard, "engine", None) == "atheris":
+            shard.excluded_ids = list(excluded_ids)
         p = ctx.Process(target=_run_shard,
                         args=(shard, seed * 1009 + idx, tier, out, hang, preds))
         p.start()
@@ -307,10 +368,10 @@ def run_property(mod, tier, seed, jobs=16, only=None):
             res["excluded_known"] = list(excl)
             results.append(res)
     shutil.rmtree(work, ignore_errors=True)
-    return finish(mod, tier, seed, results, known_hit, time.time() - t0)
+    return finish(mod, tier, seed, results, known_hit, time.time() - t0, fuzz_note)
 
 
-def finish(mod, tier, seed, results, known_hit, wall):
+def finish(mod, tier, seed, results, known_hit, wall, fuzz_note=None):
     prop = mod.PROPERTY
     evaluations = sum(r.get("evaluations", 0) for r in results)
     nontrivial = set()
@@ -383,6 +444,12 @@ def finish(mod, tier, seed, results, known_hit, wall):
         "wall_s": round(wall, 2),
         "violations": len(violations),
     }
+    cg = [r for r in results if r.get("engine") == "atheris"]
+    if cg or fuzz_note:
+        evidence["coverage"]["coverage_guided"] = fuzz_note or {
+            "engine": "atheris/libFuzzer over hypothesis fuzz_one_input, asyncstdlib instrumented",
+            "campaigns": len(cg), "cases": sum(r.get("evaluations", 0) for r in cg),
+            "fuzzer_inputs": sum(r.get("fuzz_inputs", 0) for r in cg)}
     extra = getattr(mod, "EXTRA_COVERAGE", None)
     if extra:
         evidence["coverage"].update(extra(results))
